@@ -35,4 +35,10 @@ CHECKS['C16'] = {
     'design_ref': 'DESIGN.md §4 C16',
 }
 
+CHECKS['C14'] = {
+    'technique': 'static analysis: field-provenance table for the HttpRequest conversion with a three-valued guard evaluation, single-conversion who-may-construct rule, one-emission-per-endpoint path rule, sibling diff of the two request builders',
+    'text': 'Static rule instances over the MIR of crux_http: each field of the emitted HttpRequest has its tabled source (all names, all values, body read unless known empty), one conversion serves both APIs, each endpoint emits one effect outside any loop, and the builder methods of both APIs resolve to the same callees. Necessary conditions over all requests; URL/query/body encoding inside url and http_types is trusted.',
+    'design_ref': 'DESIGN.md §4 C14',
+}
+
 PENDING_REASON = 'check not yet armed in this framework (static rules designed in DESIGN.md §4; implementation in progress)'
